@@ -992,6 +992,9 @@ func (in *interp) isPure(f *types.Func) bool {
 				if _, isLit := ast.Unparen(x.Fun).(*ast.FuncLit); isLit {
 					return true // a literal called on the spot (the deferred recover): its body is judged by the descent
 				}
+				if in.pureFuncParam(f, d, x) {
+					return true // a function handed in as a parameter: every caller hands in a pure package-level function
+				}
 				ok = false
 				return false
 			}
@@ -1015,6 +1018,57 @@ func (in *interp) isPure(f *types.Func) bool {
 		in.pure[f] = 3
 	}
 	return ok
+}
+
+// pureFuncParam: the call goes through a parameter of function type of f, and every call of f in the package passes a
+// package-level function that is pure for that parameter.
+func (in *interp) pureFuncParam(f *types.Func, d *ast.FuncDecl, call *ast.CallExpr) bool {
+	id, ok := ast.Unparen(call.Fun).(*ast.Ident)
+	if !ok {
+		return false
+	}
+	obj := in.pkg.TypesInfo.Uses[id]
+	idx := -1
+	k := 0
+	if d.Type.Params != nil {
+		for _, fld := range d.Type.Params.List {
+			for _, nm := range fld.Names {
+				if in.pkg.TypesInfo.Defs[nm] == obj {
+					idx = k
+				}
+				k++
+			}
+		}
+	}
+	if idx < 0 {
+		return false
+	}
+	sites := 0
+	good := true
+	for _, gd := range in.decls {
+		ast.Inspect(gd.Body, func(n ast.Node) bool {
+			c2, ok := n.(*ast.CallExpr)
+			if !ok || in.callee(c2) != f {
+				return true
+			}
+			sites++
+			if idx >= len(c2.Args) {
+				good = false
+				return true
+			}
+			aid, ok := ast.Unparen(c2.Args[idx]).(*ast.Ident)
+			if !ok {
+				good = false
+				return true
+			}
+			af, ok := in.pkg.TypesInfo.Uses[aid].(*types.Func)
+			if !ok || af.Pkg() != in.pkg.Types || !in.isPure(af) {
+				good = false
+			}
+			return true
+		})
+	}
+	return sites > 0 && good
 }
 
 func (in *interp) writesNonLocal(l ast.Expr) bool {
